@@ -97,8 +97,11 @@ def se_delta_method(expr, values, cov):
 
 def is_positive_semidefinite(A):
     """Checks whether a matrix is positive semi-definite"""
-    eigvals, _ = np.linalg.eig(A)
-    return all(eigvals >= 0)
+    A = np.asarray(A, dtype=float)
+    # symmetric solver: real eigenvalues, accurate to a few ulp of the largest one
+    eigvals = np.linalg.eigvalsh((A + A.T) / 2)
+    tol = len(eigvals) * np.finfo(float).eps * np.max(np.abs(eigvals), initial=0.0)
+    return bool(np.all(eigvals >= -tol))
 
 
 def is_posdef(A):
